@@ -97,7 +97,7 @@ def st_case():
     def build(draw):
         op = draw(st.sampled_from(['retrieve', 'merge', 'merge', 'merge3', 'embed', 'mask', 'forwards', 'forwards_partial', 'partial',
                                    'kwoargs', 'posoargs', 'autokwoargs', 'annotate', 'discovery', 'discovery_chain', 'discovery_twice',
-                                   'replace_mixed', 'wraps', 'wraps', 'retrieve_class', 'retrieve_instance']))
+                                   'replace_mixed', 'wraps', 'wraps', 'retrieve_class', 'retrieve_instance', 'runtime_annotation']))
         nfun = {'merge': 2, 'merge3': 3, 'embed': 2, 'forwards': 2, 'forwards_partial': 2, 'discovery': 2, 'discovery_chain': 3,
                 'discovery_twice': 2, 'wraps': 2}.get(op, 1)
         if op in ('merge', 'merge3'):
@@ -238,6 +238,12 @@ def run_op(case, fns):
         exec(compile(src, '<verif-c11-class>', 'exec', flag, dont_inherit=True), env)
         target = env['_K'] if op == 'retrieve_class' else env['_K']()
         return sigtools.signature(target) if ex['pick'] % 2 else sig(target)
+    if op == 'runtime_annotation':
+        # an annotation put into __annotations__ at run time is a value, whatever the module's future flag says
+        named = [p[0] for p in case['funcs'][0]['spec']]
+        if named:
+            fns[0].__annotations__[named[0]] = OBJS[3]
+        return sigtools.signature(fns[0]) if ex['pick'] % 2 else sig(fns[0])
     if op == 'replace_mixed':
         # a parameter list mixing the signature's own parameters with a plain inspect.Parameter (deprecated, accepted)
         import inspect
@@ -413,6 +419,11 @@ def check_case(case, stats):
             for name, v in got.items():
                 if name == 'return' and case['op'] == 'retrieve_class':
                     continue        # written on __init__, not reported for the class
+                if case['op'] == 'runtime_annotation' and case['funcs'][0]['spec'] and name == case['funcs'][0]['spec'][0][0]:
+                    if v is not OBJS[3]:
+                        stats.fail('C11/runtime_annotation/ground-truth', case, '%s -> %s: %r was set to %r at run time, resolves to %r' % (desc, P, name, OBJS[3], v))
+                        return
+                    continue
                 if name == 'return':
                     i, sp = 0, case['funcs'][0]['ret']
                 elif name in definer:
